@@ -20,6 +20,7 @@ import GgrsModel.Model.P2P
 import GgrsModel.Proofs.Monad
 import GgrsModel.Proofs.Predict
 import GgrsModel.Proofs.Monotone
+import GgrsModel.Proofs.DropWorld
 
 namespace Ggrs.InputQueue
 
@@ -255,5 +256,43 @@ its queue holds (`status_top`) and the queues' streams only grow. -/
 theorem C03_confirmed_monotone (x y : P2P × TLState) (h : HInv x) (hr : DStar x y) (cx cy : Frame)
     (hcx : x.1.confirmedFrame = .ok cx) (hcy : y.1.confirmedFrame = .ok cy) : cx ≤ cy :=
   confirmedFrame_mono x y h hr cx cy hcx hcy
+
+end Ggrs
+
+namespace Ggrs
+
+/-- **C03, statuses are truthful with dropped players (non-sparse rollback sessions, drops detected
+locally).** After any run of arrivals, calls, accepted `disconnect_player` calls and Disconnected
+events, whenever a call simulates a new frame `c`, then for every player: the status is
+Disconnected (with the blank input) exactly when the player is marked disconnected with a last
+frame before `c`; otherwise it is Confirmed with the real input of frame `c`, which has arrived, or
+Predicted with the predictor applied to the newest input that has arrived, the input of `c` not
+being among them. -/
+theorem C03_status_with_drops (x y : P2P × TLState) (h0 : XInv x) (hrun : XStar x y)
+    (now : Nat) (s' : P2P) (reqs' : List Request)
+    (hadv : y.1.advanceRollbackFrame now [] = .ok (s', reqs'))
+    (hnew : s'.sync.currentFrame ≠ y.1.sync.currentFrame) :
+    ∃ (gh : DGhost) (reqs1 : List Request) (c : Nat) (ins : List (Input × InputStatus)),
+      y.1.sync.currentFrame = (c : Int) ∧ reqs' = reqs1 ++ [.advance ins] ∧ ins.length = y.1.sync.queues.length ∧
+      ∀ p, p < ins.length →
+        ((ins.getD p default).2 = .disconnected ↔ Skip (rget y.1.localConnectStatus p) c) ∧
+        (Skip (rget y.1.localConnectStatus p) c → ins.getD p default = (0, .disconnected)) ∧
+        (¬ Skip (rget y.1.localConnectStatus p) c →
+          ((ins.getD p default).2 = .confirmed ∧ c < (gh.specs p).vals.length ∧
+            (ins.getD p default).1 = (gh.specs p).vals.getD c 0) ∨
+          ((ins.getD p default).2 = .predicted ∧ (gh.specs p).vals.length ≤ c ∧
+            (ins.getD p default).1 = predValue y.1.pred (gh.specs p).vals)) := by
+  obtain ⟨gh, st0, h⟩ := XInv_run x y h0 hrun
+  obtain ⟨s1, reqs1, gh1, gh2, gh', hset, _, _, _, _, _, _, _, _, hcase⟩ :=
+    advanceRollbackFrame_specD y.1 s' gh y.2 [] reqs' now st0 h hadv
+  rcases hcase with ⟨_, hcur⟩ | ⟨c, ins, hc, hr, hil, hok, _, _, hcur⟩
+  · exact absurd hcur hnew
+  · refine ⟨gh2, reqs1, c, ins, hc, hr, hil, ?_⟩
+    intro p hp
+    obtain ⟨a, b⟩ := hok p hp
+    refine ⟨⟨fun hd => ?_, fun hsk => by rw [a hsk]⟩, a, b⟩
+    by_cases hsk : Skip (rget y.1.localConnectStatus p) (c : Int)
+    · exact hsk
+    · rcases b hsk with ⟨e, _⟩ | ⟨e, _⟩ <;> rw [e] at hd <;> cases hd
 
 end Ggrs
